@@ -169,7 +169,41 @@ def kinetic_cases(draw, *, max_datasets=3, allow_full=True, allow_irf=True, iden
         spec["dataset"]["dataset_1"]["global_megacomplex"] = ["mc_spec"]
     case = {"spec": spec, "parameters": params, "datasets": datasets, "sim": sim,
             "perturb": [draw(st.sampled_from([0.85, 0.9, 1.1, 1.18])) for _ in range(8)]}
+    if draw(st.integers(0, 3)) == 0:
+        # the same measurement as instruments / scripts deliver it: time points or wavelengths descending or in acquisition
+        # order, integer coordinates (np.arange); (data dtypes are the business of the scheme generator: simulated data rounded to
+        # single precision are no longer reproduced "to rounding" in double precision)
+        rep = {"time": draw(st.sampled_from(["ascending", "descending", "shuffled", "integer"])),
+               "spectral": draw(st.sampled_from(["ascending", "descending", "shuffled", "integer"]))}
+        if identifiable and rep["time"] == "integer":
+            rep["time"] = "descending"
+        perm_seed = draw(st.integers(0, 10**6))
+        for k, d in enumerate(datasets.values()):
+            for axis in ("time", "spectral"):
+                vals = list(d[axis])
+                if rep[axis] == "descending":
+                    vals = vals[::-1]
+                elif rep[axis] == "shuffled":
+                    vals = [vals[i] for i in np.random.default_rng([perm_seed, k, len(vals)]).permutation(len(vals))]
+                elif rep[axis] == "integer":
+                    vals = sorted({float(round(v)) for v in vals})
+                d[axis] = vals
+            if d.get("stored_transposed"):
+                d["spectral"] = [d["spectral"][0] + (2.5 if rep["spectral"] != "integer" else 3.0) * j * (1 if d["spectral"][-1] >= d["spectral"][0] else -1) for j in range(len(d["time"]))]
+        case["repr"] = rep
     return case
+
+
+def coordinates(case, d):
+    """numpy coordinates of a dataset in the representation the case asks for."""
+    rep = case.get("repr") or {}
+    out = {}
+    for axis in ("time", "spectral"):
+        vals = np.asarray(d[axis], dtype=float)
+        if rep.get(axis) == "integer" and all(float(v).is_integer() for v in vals):
+            vals = vals.astype(np.int64)
+        out[axis] = vals
+    return out
 
 
 # ------------------------------------------------------------------------------------------
@@ -265,7 +299,7 @@ def simulate_data(case, model, parameters):
 
     data, clps = {}, {}
     for lab, d in case["datasets"].items():
-        coords = {"time": np.asarray(d["time"], dtype=float), "spectral": np.asarray(d["spectral"], dtype=float)}
+        coords = coordinates(case, d)
         if case["sim"] == "full":
             ds = simulate(model, lab, parameters, coords, noise=d["noise"] > 0, noise_std_dev=d["noise"] or 1.0, noise_seed=d["noise_seed"])
         else:
